@@ -166,6 +166,9 @@ TARGETED_PROGS = [
     'match x:\n    case 1:\n        s = "é"  # ö\n    case _:\n        t = "ü"\n',
     'import a\n# about f\ndef f(): pass\n\n\n# about g\ndef g(): pass\nx = 1\n',
     'if a:\n    class C: pass\n    # about d\n    d = "ñ"\nelse:\n    e = "ß"  # ä\n',
+    'x = (a\n     and  # why\n                          b\n     and c)\ny = (p or  # cp\n     q or  # cq\n     r)\n',
+    'z = (a\n     <  # lt\n            b\n     <= c)\nw = [\n    e1,  # c1\n    e2,  # c2\n    e3  # c3\n]\n',
+    'match v:\n    case (a  # ca\n          | b  # cb\n          | c  # cc\n          ): pass\n',
 ]
 
 
@@ -175,9 +178,11 @@ def targeted_cases():
     for src in TARGETED_PROGS:
         probe = fst.FST(src, 'exec')
         for h in probe.walk(True):
-            for fl in ('body', 'handlers', 'cases', 'orelse', 'finalbody'):
-                v = getattr(h.a, fl, None)
-                if isinstance(v, list) and v and isinstance(v[0], ast.AST):
+            for fl in ('body', 'handlers', 'cases', 'orelse', 'finalbody', 'values', 'elts', 'patterns', '_all'):
+                v = getattr(h.a, fl, None) if fl != '_all' else (list(getattr(h, '_all')) if isinstance(h.a, ast.Compare) else None)
+                if fl in ('values', 'elts', 'patterns', '_all') and not isinstance(h.a, (ast.BoolOp, ast.List, ast.MatchOr, ast.Compare)):
+                    continue
+                if isinstance(v, list) and v and (fl == '_all' or isinstance(v[0], ast.AST)):
                     for i in range(len(v)):
                         for j in range(i + 1, len(v) + 1):
                             for opts in ({}, {'trivia': ('block', 'line+1')}, {'trivia': (False, 'block+2')}):
@@ -234,7 +239,7 @@ def stage_oracle(ctx: Ctx, progs, tracer):
                 j = i + 1 if kind == 'get_one' else rng.randrange(i, n + 1)
                 if fc:
                     g, fl, i, j = f, fc['field'], fc['i'], fc['j']
-                    n = len(getattr(g.a, fl))
+                    n = len(getattr(g, fl))
                 rec.update(holder=repr(g), field=fl, start=i, stop=j)
                 piece = g.get(i, fl, **opts) if kind == 'get_one' else g.get_slice(i, j, fl, **opts)
                 expect = expected_elements(g, fl, i, j)
